@@ -82,7 +82,7 @@ def lib_files(specs, seed, variant="asan"):
     out = []
     for c, (w, cfg) in zip(cases, specs):
         wr = c.first("W")
-        if not c.ok or wr is None or wr.get("close") != "1":
+        if not c.done or wr is None or wr.get("close") != "1":
             raise core.HarnessError("library failed to write base file %s/%s: %s %s" % (w, cfg.name(), wr, c.status()))
         out.append(core.unhex(wr["file"]))
     return out
